@@ -82,6 +82,14 @@ impl<'a> ChunkyBuf<'a> {
         }
     }
 
+    /// the FIRST window has exactly `k` bytes (concrete split point), everything after it is exposed
+    /// in full
+    pub fn split_at(mut self, k: usize) -> Self {
+        self.window = k.min(self.data.len());
+        self.partial_left = 0;
+        self
+    }
+
     /// at most `n` solver-placed partial windows (of any size), every other refill exposes all that
     /// is left: n = 1 is "the stream is split in two at ANY offset"
     pub fn with_partial_budget(mut self, n: u8) -> Self {
